@@ -10,12 +10,13 @@
      results_ok [] h rs                  the answers are the ones the map semantics demands: DeleteAttribute
                                          succeeds exactly on present names, a value the API cannot encode is
                                          refused, WriteAttribute succeeds or is refused (capacity limits:
-                                         C02_write_refusals_dense and _compact), panic only for a name of >= 65535 bytes
+                                         C02_write_refusals_dense and _compact)
      NoHashCollision name_hash (names h) no two distinct names used in h have the same lookup3 hash
-     st <> Broken                        the fractal heap never overflowed (C02_refines_map_volume gives the
-                                         closed form: total encoded size of all written values <= p_hcap P =
-                                         65517 bytes; C02_refines_map_repaired: no condition once the overflow
-                                         is refused, notes/fixes/dense-heap-overflow-refused.patch)
+     st <> Broken                        the fractal heap never overflowed WITHOUT the call being refused; this can
+                                         only happen for p_ovf_err P = false, the tree before 5ec600b
+                                         (C02_refines_map_volume: closed form, total encoded size of all written
+                                         values <= p_hcap P = 65517 bytes).  For the current tree the condition is
+                                         void: C02_refines_map_repaired / C02_refines_map_go
    All theorems hold for every parameter setting P with p_hcap P <= 65536 (header limit, compact threshold,
    index and heap capacities are parameters, not constants). *)
 From HV Require Import Base.Prelude Model.Attr Model.AttrTie.
@@ -41,7 +42,7 @@ Theorem C02_refines_map_set : forall name_hash P, p_hcap P <= 65536 -> forall h 
 Proof. exact refines_map_set. Qed.
 Print Assumptions C02_refines_map_set.
 
-(* side condition in closed form (current tree) *)
+(* side condition in closed form (for p_ovf_err = false) *)
 Theorem C02_refines_map_volume : forall name_hash P h st rs,
   p_hcap P <= 65536 ->
   NoHashCollision name_hash (names h) ->
@@ -53,7 +54,7 @@ Theorem C02_refines_map_volume : forall name_hash P h st rs,
 Proof. exact refines_map_volume. Qed.
 Print Assumptions C02_refines_map_volume.
 
-(* no side condition on the volume when a heap overflow is refused (tree with the proposed repair) *)
+(* no side condition on the volume when a heap overflow is refused (the tree since 5ec600b) *)
 Theorem C02_refines_map_repaired : forall name_hash P, p_ovf_err P = true -> forall h st rs,
   p_hcap P <= 65536 ->
   NoHashCollision name_hash (names h) ->
@@ -63,6 +64,17 @@ Theorem C02_refines_map_repaired : forall name_hash P, p_ovf_err P = true -> for
             results_ok [] h rs.
 Proof. exact refines_map_repaired. Qed.
 Print Assumptions C02_refines_map_repaired.
+
+(* ... in particular for the parameter values of the current source tree (go_params: header limit 255, threshold 8,
+   371 index records, 65517 heap bytes, overflow refused since 5ec600b), any size of the object's own header messages *)
+Theorem C02_refines_map_go : forall name_hash base h st rs,
+  NoHashCollision name_hash (names h) ->
+  run name_hash (go_params base) init h = (st, rs) ->
+  exists l, read_attrs st = Some l /\ NoDup (map aname l) /\
+            (forall n, attr_get l n = sp_get (run_spec [] h rs) n) /\
+            results_ok [] h rs.
+Proof. exact refines_map_go. Qed.
+Print Assumptions C02_refines_map_go.
 
 Theorem C02_names_unique : forall name_hash P, p_hcap P <= 65536 -> forall h st rs l,
   NoHashCollision name_hash (names h) ->
